@@ -1197,10 +1197,11 @@ impl SvgElement {
         if self.name == "text" || self.name == "point" {
             return false;
         }
-        let mut size_attr = matches!(name, "width" | "height");
-        size_attr = size_attr || (self.name == "circle" && name == "r");
-        size_attr = size_attr || (self.name == "ellipse" && (name == "rx" || name == "ry"));
+        let size_attr = matches!(name, "width" | "height");
+        // (either kind of radius is accepted on both)
         size_attr
+            || (matches!(self.name.as_str(), "circle" | "ellipse")
+                && matches!(name, "r" | "rx" | "ry"))
     }
 
     fn is_pos_attr(&self, name: &str) -> bool {
@@ -1468,11 +1469,13 @@ impl SvgElement {
         // (white space around the value, e.g. a line break after the quote, means nothing)
         let value = value.trim();
         if value.starts_with([ELREF_ID_PREFIX, ELREF_PREVIOUS]) {
-            let mut parts = value.splitn(2, char::is_whitespace);
+            // (values are separated by white space or a comma, as everywhere else)
+            let is_separator = |c: char| c.is_whitespace() || c == ',';
+            let mut parts = value.splitn(2, is_separator);
             let prefix = parts.next().expect("nonempty");
             if let Some(remain) = parts.next() {
                 // wh="#a~h #a~w" -> width="#a~h", height="#a~w"
-                let remain = remain.trim_start();
+                let remain = remain.trim_start_matches(is_separator);
                 if remain.starts_with([ELREF_ID_PREFIX, ELREF_PREVIOUS]) {
                     return (prefix.to_owned(), remain.to_owned());
                 }
@@ -1515,44 +1518,81 @@ impl SvgElement {
     pub(crate) fn resolve_size_delta(&mut self) {
         // assumes "width"/"height"/"r"/"rx"/"ry" are numeric if present
         let num = |el: &Self, name: &str| el.get_attr(name).and_then(|v| strp(&v).ok());
-        // (a circle or an ellipse can be sized by width / height as well as by radius)
+        if !self.has_attr("dw") && !self.has_attr("dh") {
+            return;
+        }
+        // (a circle or an ellipse can be sized by width / height as well as by radius -
+        // and by the other's kind of radius: the size is read wherever it is written)
         let (w, h) = match self.name.as_str() {
             "circle" => {
                 let diam = num(self, "r")
+                    .or(num(self, "rx"))
+                    .or(num(self, "ry"))
                     .map(|r| 2. * r)
                     .or(num(self, "width"))
                     .or(num(self, "height"));
                 (diam, diam)
             }
             "ellipse" => (
-                num(self, "rx").map(|x| x * 2.).or(num(self, "width")),
-                num(self, "ry").map(|x| x * 2.).or(num(self, "height")),
+                num(self, "rx")
+                    .or(num(self, "r"))
+                    .map(|x| x * 2.)
+                    .or(num(self, "width")),
+                num(self, "ry")
+                    .or(num(self, "r"))
+                    .map(|x| x * 2.)
+                    .or(num(self, "height")),
             ),
             _ => (num(self, "width"), num(self, "height")),
         };
-        // ... and the new size goes where the old one came from
-        let radius_attrs: (Option<&str>, Option<&str>) = match self.name.as_str() {
-            "circle" if self.has_attr("r") => (Some("r"), Some("r")),
-            "ellipse" => (
-                self.has_attr("rx").then_some("rx"),
-                self.has_attr("ry").then_some("ry"),
-            ),
-            _ => (None, None),
+        let delta = |el: &mut Self, name: &str, size: Option<f32>| {
+            el.pop_attr(name)
+                .and_then(|d| strp_length(&d).ok())
+                .and_then(|d| size.map(|x| d.adjust(x)))
         };
-
-        if let Some(dw) = self.pop_attr("dw") {
-            if let Ok(Some(new_w)) = strp_length(&dw).map(|dw| w.map(|x| dw.adjust(x))) {
-                match radius_attrs.0 {
-                    Some(r) => self.set_attr(r, &fstr(new_w / 2.)),
-                    None => self.set_attr("width", &fstr(new_w)),
+        let (new_w, new_h) = (delta(self, "dw", w), delta(self, "dh", h));
+        match self.name.as_str() {
+            // ... and the new size goes where the old one came from
+            "circle" => {
+                // (a circle has one size: a change of either is a change of its diameter)
+                if let Some(diam) = new_w.or(new_h) {
+                    let written: Vec<&str> = ["r", "rx", "ry", "width", "height"]
+                        .into_iter()
+                        .filter(|name| self.has_attr(name))
+                        .collect();
+                    for name in written {
+                        match name {
+                            "width" | "height" => self.set_attr(name, &fstr(diam)),
+                            _ => self.set_attr(name, &fstr(diam / 2.)),
+                        }
+                    }
                 }
             }
-        }
-        if let Some(dh) = self.pop_attr("dh") {
-            if let Ok(Some(new_h)) = strp_length(&dh).map(|dh| h.map(|x| dh.adjust(x))) {
-                match radius_attrs.1 {
-                    Some(r) => self.set_attr(r, &fstr(new_h / 2.)),
-                    None => self.set_attr("height", &fstr(new_h)),
+            "ellipse" => {
+                // (`r` stands for both radii: a change of one of them spells them out)
+                if let (Some(r), true) = (
+                    self.get_attr("r"),
+                    new_w.is_some() || new_h.is_some(),
+                ) {
+                    self.pop_attr("r");
+                    self.set_default_attr("rx", &r);
+                    self.set_default_attr("ry", &r);
+                }
+                for (new, radius, length) in [(new_w, "rx", "width"), (new_h, "ry", "height")] {
+                    if let Some(new) = new {
+                        match self.has_attr(radius) {
+                            true => self.set_attr(radius, &fstr(new / 2.)),
+                            false => self.set_attr(length, &fstr(new)),
+                        }
+                    }
+                }
+            }
+            _ => {
+                if let Some(new_w) = new_w {
+                    self.set_attr("width", &fstr(new_w));
+                }
+                if let Some(new_h) = new_h {
+                    self.set_attr("height", &fstr(new_h));
                 }
             }
         }
